@@ -307,9 +307,9 @@ func runScheduledOnce(in Sx, limit time.Duration) (Sx, bool) {
 		}(cmds[i])
 	}
 	res := make([]Sx, 0, sched.Len())
-	hung := false
+	hung, crashed := false, false
 	for k := 0; k < sched.Len(); k++ {
-		if !hung {
+		if !hung && !crashed {
 			e := sched.At(k)
 			tid := e.At(0).AsInt()
 			if tid < 0 || tid >= g {
@@ -319,12 +319,18 @@ func runScheduledOnce(in Sx, limit time.Duration) (Sx, bool) {
 			select {
 			case r := <-done:
 				res = append(res, r)
+				if r.At(0).Int64() == 4 { // run-time panic: the mutex may have been left locked
+					crashed = true
+				}
 				continue
-			case <-time.After(limit): // e.g. the mutex was left locked by a call that panicked
+			case <-time.After(limit):
 				hung = true
 			}
 		}
 		res = append(res, List(Int(4), List(), Int(-1), Int(-1)))
+	}
+	if crashed {
+		return List(Ints(0, 0), ListOf(res), List(List(), Int(-1), Int(-1), Int(-1))), false
 	}
 	if hung {
 		return List(Ints(0, 0), ListOf(res), List(List(), Int(-1), Int(-1), Int(-1))), true
@@ -377,16 +383,23 @@ func stress(P, C, n int) Sx {
 	}
 	got := make([][]Sx, C)
 	var wg sync.WaitGroup
-	var panics int64
+	var panics, producersDone int64
+	aborted := make(chan struct{}) // closed when a call panics: the mutex may have been left locked
+	var abortOnce sync.Once
+	abort := func() {
+		atomic.AddInt64(&panics, 1)
+		abortOnce.Do(func() { close(aborted) })
+	}
 	start := make(chan struct{})
 	for p := 0; p < P; p++ {
 		wg.Add(1)
 		go func(p int) {
 			defer wg.Done()
+			defer atomic.AddInt64(&producersDone, 1)
 			<-start
 			for s := 0; s < n; s++ {
 				if pk, _ := Catch(func() { q.Enqueue(p<<20 | s) }); pk {
-					atomic.AddInt64(&panics, 1)
+					abort()
 					return
 				}
 				if s%7 == p%7 {
@@ -400,25 +413,33 @@ func stress(P, C, n int) Sx {
 		go func(c int) {
 			defer wg.Done()
 			<-start
-			spins := 0
-			for len(got[c]) < quota[c] && spins < 50000000 {
+			for len(got[c]) < quota[c] {
+				finished := atomic.LoadInt64(&producersDone) == int64(P)
 				var v interface{}
 				var ok bool
 				if pk, _ := Catch(func() { v, ok = q.Dequeue() }); pk {
-					atomic.AddInt64(&panics, 1)
+					abort()
 					return
 				}
 				if ok {
 					got[c] = append(got[c], val(v))
+				} else if finished { // nothing more will come
+					return
 				} else {
-					spins++
 					runtime.Gosched()
 				}
 			}
 		}(c)
 	}
 	close(start)
-	wg.Wait()
+	finishedAll := make(chan struct{})
+	go func() { wg.Wait(); close(finishedAll) }()
+	select {
+	case <-finishedAll:
+	case <-aborted:
+		// other goroutines may be parked on the mutex for ever: report what happened
+		return List(List(), List(), Int(atomic.LoadInt64(&panics)))
+	}
 	var rest []Sx
 	for len(rest) <= total {
 		var v interface{}
